@@ -115,7 +115,7 @@ def rt_event(case):
         ev["delim"] = list(s.getvalue())
         ev["sts"] = list(m.SerializeToString())
         p = C[ty]().parse(b)
-        ev["obs"] = dyn.obs_bp(schema, p, ty)
+        ev["obs"] = dyn.obs_decoded(schema, p, ty)
         ev["eq"] = bool(p == m)
         ev["b2"] = list(bytes(p))
     except Exception as ex:      # noqa
